@@ -217,6 +217,16 @@ type pool struct {
 // refNode places a reference to one of the pool types in a randomly chosen position under key k of obj
 func addReference(t *rapid.T, obj *model.Node, i int, pl pool, label string) {
 	key := fmt.Sprintf("p%d", i)
+	// written keys that look like something else: a quoted key that reads like a type name (it is a plain
+	// key, not a shortcut), a key that is itself wrapped in quotes, keys with escapes
+	switch rapid.IntRange(0, 8).Draw(t, label+"oddkey") {
+	case 0:
+		key = fmt.Sprintf("@p%d", i)
+	case 1:
+		key = fmt.Sprintf("\"q%d\"", i)
+	case 2:
+		key = fmt.Sprintf("a\\b/%d\n", i)
+	}
 	pick := func(names []string, l string) string { return rapid.SampledFrom(names).Draw(t, label+l) }
 	switch rapid.IntRange(0, 10).Draw(t, label+"pos") {
 	case 10:
